@@ -86,6 +86,13 @@ pub fn run(rec: &mut Recorder, w: &mut World, tier: &str, seed: u64) {
                 // plain: rules under p
                 if new_enforcer(rec, w, &m, "memory", &lines_of("p", &rules, &k.g, &links), "", false) != "ok" { rec.count("new:failed"); if cached { rec.exec(w, "e.cached\tfalse"); } continue; }
                 let plain = rec.exec(w, &format!("e.enfs\t{}", reqf));
+                // on the cached runs a rule is then added (or the first one removed) through the management API and the requests are
+                // asked again - on the context side the same edit goes to p<k>: an answer given before the edit must not outlive it
+                let edit: Option<(bool, Vec<String>)> = if cached && k.name != "eval" {
+                    if !rules.is_empty() && rng.chance(1, 3) { Some((false, rules[0].clone())) } else { Some((true, gen_rule(&mut rng, k, with_eft))) }
+                } else { None };
+                let edit_line = |pk: &str, e: &(bool, Vec<String>)| if e.0 { MOp::Add("p".into(), pk.to_string(), e.1.clone()).line() } else { MOp::Rm("p".into(), pk.to_string(), e.1.clone()).line() };
+                let plain2 = edit.as_ref().map(|e| { rec.exec(w, &edit_line("p", e)); rec.exec(w, &format!("e.enfs\t{}", reqf)) });
                 // context: the same rules under p<k> (rule-in-policy texts name the renamed request tokens)
                 let ctx_rules: Vec<Vec<String>> = if k.name == "eval" {
                     rules.iter().map(|r| { let mut x = r.clone(); if !x.is_empty() { x[0] = x[0].replace("r.", &format!("r{}.", sfx)); } x }).collect()
@@ -104,6 +111,15 @@ pub fn run(rec: &mut Recorder, w: &mut World, tier: &str, seed: u64) {
                     rec.exec(w, "e.auto\tenforce\ttrue");
                     ctx = rec.exec(w, &format!("e.enfcs\t{}\t{}", sfx, reqf));
                     rec.count("enforcer:cached-enable-window");
+                }
+                if let (Some(e), Some(p2)) = (edit.as_ref(), plain2.as_ref()) {
+                    rec.exec(w, &edit_line(&format!("p{}", sfx), e));
+                    let ctx2 = rec.exec(w, &format!("e.enfcs\t{}\t{}", sfx, reqf));
+                    rec.count("enforcer:cached-edit-then-ask-again");
+                    if *p2 != ctx2 {
+                        let i = p2.bytes().zip(ctx2.bytes()).position(|(x, y)| x != y).unwrap_or(0);
+                        rec.fail("context-differs", format!("[{} {} suffix {}; cached, after {} {:?} on both sides] request {:?}: plain {} context {} (rules {:?})", k.name, ename, sfx, if e.0 { "adding" } else { "removing" }, e.1, reqs[i], &p2[i..i + 1], &ctx2[i..i + 1], rules));
+                    }
                 }
                 if cached { rec.exec(w, "e.cached\tfalse"); }
                 if plain != ctx {
